@@ -347,6 +347,12 @@ func CrashCheck() {
 			"through ReattachToPipestance+Reset+RestartLocalJobs+LoadMetadata and runs to the end; for EVERY n also the handled-signal variant: a termination signal arrives before effect n, the process keeps running while a critical section is open (util.EnterCriticalSection), then the registered handlers run (Pipestance.HandleSignal) and the process is dead; the lock must be gone WITHOUT operator help and the restart must succeed the same way; both kinds of interruption are run twice: with the running jobs vanishing without a trace, and with their monitors recording '_errors: Caught signal terminated' as mrjob does on SIGTERM (the restart then finds failed jobs next to queued ones); thorough adds a second crash at every effect of the restart for two shapes. " +
 			"distinct = distinct (shape, crash point, torn variant); non-trivial = the first incarnation actually died at that effect"
 		r.Set("shapes", len(shapes))
+		if os.Getenv("VERIF_NO_TIERB") == "" {
+			if _, err := TierBRoot(); err != nil {
+				fmt.Println(err)
+				os.Exit(2)
+			}
+		}
 		r.RunWorkers(0)
 		r.Assume("crash granularity is the file-system call; no fsync/disk-block modelling; in-flight local jobs die with mrp (pdeathsig) and their recorded pid is dead")
 		r.Assume("the operator removes the stale _lock after a kill, as documented (not after a handled signal)")
@@ -489,5 +495,6 @@ func CrashCheck() {
 			}
 		}
 	}
+	TierBCrash(r)
 	r.Done()
 }
